@@ -2177,6 +2177,27 @@ theorem wrapping_bypassed_the_old_decorator :
     anteOkTop [.exec 1 [.plain m]] (fun _ _ => false) = false := by decide
 
 
+/-- **contract_dispatch_acts_only_for_itself.** A protobuf message a contract dispatches is run only when it is the
+contract's own message: its creator is the contract, and the contract is among its declared signers — the very condition
+the ante decorator imposes on a transaction's messages (`anteOk`). -/
+theorem contract_dispatch_acts_only_for_itself (c : Addr) (m : Msg) (grants : Addr → Addr → Bool)
+    (h : wasmDispatchOk c m = true) : m.creator = c ∧ anteOk m grants = true := by
+  simp only [wasmDispatchOk, wasmSignerOk, Bool.and_eq_true, beq_iff_eq, Bool.not_eq_true', List.all_eq_true] at h
+  obtain ⟨hc, hall, hne⟩ := h
+  refine ⟨hc, ?_⟩
+  cases hs : m.signers with
+  | nil => simp [hs] at hne
+  | cons a as =>
+    have : a = c := by have := hall a (by simp [hs]); simpa using this
+    simp [anteOk, hs, this, hc]
+
+/-- **contract_dispatch_was_unchecked.** What the second repaired defect was (/repo `72c8766b`): wasmd's condition alone
+is met by a message created in the name of account 2 and declaring the contract 7 as signer — which the gate refuses. -/
+theorem contract_dispatch_was_unchecked :
+    let m : Msg := { typ := "tokenfactory.ChangeAdmin", signers := [7], creator := 2, field := fun _ => none }
+    wasmSignerOk 7 m = true ∧ wasmDispatchOk 7 m = false ∧ anteOk m (fun _ _ => false) = false := by decide
+
+
 section Examples
 
 /-- the real handler table; governance authority 99, light-node feegranter 50; validator 7
